@@ -1,6 +1,63 @@
-import SkNet.Model.Basic
+/- Line-protocol handlers for the container model (C01). -/
+import SkNet.Model.Container
+
 namespace SkNet.Drive.C01
-open SkNet
+open SkNet SkNet.Proto SkNet.Fmt
+
+/-- `c:v,c:v` (or `-`) -/
+def row? (s : String) : Option Row :=
+  if s == "-" then some [] else (s.splitOn ",").mapM fun (t : String) =>
+    match t.splitOn ":" with
+    | [c, v] => do
+        let a ← String.toNat? c
+        let b ← rat? v
+        pure (a, b)
+    | _ => none
+
+/-- rows separated by `|`; `_` is the empty list of rows -/
+def rows? (s : String) : Option Rows :=
+  if s == "_" then some [] else (s.splitOn "|").mapM row?
+
+def triples? (s : String) : Option (List (Nat × Nat × Rat)) :=
+  if s == "-" then some [] else (s.splitOn ",").mapM fun (t : String) =>
+    match t.splitOn ":" with
+    | [r, c, v] => do
+        let a ← String.toNat? r
+        let b ← String.toNat? c
+        let x ← rat? v
+        pure (a, b, x)
+    | _ => none
+
+def denseRows? (s : String) : Option (List (List Rat)) :=
+  if s == "_" then some [] else (s.splitOn "|").mapM ratList?
+
+def showRow (r : Row) : String :=
+  if r.isEmpty then "-" else ",".intercalate (r.map fun p => s!"{p.1}:{showRat p.2}")
+
+def showRows (rs : Rows) : String :=
+  if rs.isEmpty then "_" else "|".intercalate (rs.map showRow)
+
+def container? (fmt nr nc payload : String) : Option Container := do
+  let nr ← nr.toNat?
+  let nc ← nc.toNat?
+  match fmt with
+  | "csr" => do let r ← rows? payload; if r.length == nr then some (.csr nc r) else none
+  | "lil" => do let r ← rows? payload; if r.length == nr then some (.lil nc r) else none
+  | "csc" => do let c ← rows? payload; if c.length == nc then some (.csc nr c) else none
+  | "coo" => do some (.coo nr nc (← triples? payload))
+  | "dense" => do let r ← denseRows? payload; if r.length == nr then some (.dense nc r) else none
+  | _ => none
+
 def handle : Handler
+  | "c01.canon", [fmt, nr, nc, payload] => some <| Option.getD (do
+      let c ← container? fmt nr nc payload
+      if !c.WF then some "err malformed"
+      else some ("ok " ++ showRows (canon c.nCol (toCsrRows c)))) "bad-args"
+  -- the CSR rows scipy is modelled to build, before canonicalisation (storage order visible)
+  | "c01.tocsr", [fmt, nr, nc, payload] => some <| Option.getD (do
+      let c ← container? fmt nr nc payload
+      if !c.WF then some "err malformed"
+      else some ("ok " ++ showRows (toCsrRows c))) "bad-args"
   | _, _ => none
+
 end SkNet.Drive.C01
